@@ -44,6 +44,21 @@ struct St {
     dead: bool,
 }
 
+impl Drop for St {
+    /// outstanding credits are returned one by one; a credit whose return panics (F34) must not
+    /// take the process down with a second panic during unwinding
+    fn drop(&mut self) {
+        let mut failed = false;
+        for c in std::mem::take(&mut self.credits) {
+            if failed {
+                std::mem::forget(c);
+            } else if catch_unwind(AssertUnwindSafe(|| drop(c))).is_err() {
+                failed = true;
+            }
+        }
+    }
+}
+
 fn new_case(w: &[&str]) -> St {
     let c: Vec<u64> = w.iter().map(|x| x.parse().unwrap()).collect();
     let tx = Tx::default();
